@@ -158,6 +158,8 @@ def run(F, rep, tier="quick", extra=None, only=None):
     consts.check_white_points(F, rep, S)
     consts.check_transfer_functions(F, rep, S)
     consts.check_oklab_matrices(F, rep, S)
+    from .c14 import check_matrix_direction
+    check_matrix_direction(F, rep)   # which matrix flows into which direction (shared with C14)
     from .c15 import check_ok_conversions
     check_ok_conversions(F, rep)   # Ottosson's Okhsl / Okhsv algorithms (shared with C15)
     from . import aliasrule
